@@ -1538,13 +1538,13 @@ def gen_C15(rng, tier):
         for _ in range(rng.randint(2, 40)):
             r = rng.random()
             if r < 0.21: evs.append("set:" + mkf(rng))
-            elif r < 0.30: evs.append("acc:" + rng.choice(["ok", "ok", "E7", "E8"]))
+            elif r < 0.30: evs.append("acc:" + rng.choice(["ok", "ok", "E7", "E8", "EN"]))
             elif r < 0.41: evs.append("lr")
             elif r < 0.48: evs.append("fol")
             elif r < 0.55: evs.append("fol2")
             elif r < 0.59: evs.append("unfol")
-            elif r < 0.70: evs.append("gs:" + rng.choice([out_some(rng.randint(-9, 9), mkf(rng)), out_some(1, mkf(rng)), "N", "E1", "E2"]))
-            elif r < 0.80: evs.append("gs2:" + rng.choice([out_some(rng.randint(-9, 9), mkf(rng)), out_some(1, mkf(rng)), "N", "E4", "E2"]))
+            elif r < 0.70: evs.append("gs:" + rng.choice([out_some(rng.randint(-9, 9), mkf(rng)), out_some(1, mkf(rng)), "N", "E1", "E2", "EN"]))
+            elif r < 0.80: evs.append("gs2:" + rng.choice([out_some(rng.randint(-9, 9), mkf(rng)), out_some(1, mkf(rng)), "N", "E4", "E2", "EN"]))
             elif r < 0.83: two_getters(evs, ["lr", "acc:ok", "set:" + mkf(rng)], [[], ["lr"]])
             else: evs.append("upd")
         L.append("se rec " + " ".join(evs))
@@ -1559,8 +1559,8 @@ def gen_C15(rng, tier):
             elif r < 0.63: evs.append("fol")
             elif r < 0.69: evs.append("fol2")
             elif r < 0.72: evs.append("unfol")
-            elif r < 0.81: evs.append("gs:" + rng.choice([out_some(rng.randint(-9, 9), mkf(rng)), "N", "E1"]))
-            elif r < 0.89: evs.append("gs2:" + rng.choice([out_some(rng.randint(-9, 9), mkf(rng)), "N", "E4"]))
+            elif r < 0.81: evs.append("gs:" + rng.choice([out_some(rng.randint(-9, 9), mkf(rng)), "N", "E1", "EN"]))
+            elif r < 0.89: evs.append("gs2:" + rng.choice([out_some(rng.randint(-9, 9), mkf(rng)), "N", "E4", "EN"]))
             elif r < 0.91: two_getters(evs, ["lr", "get", "set:" + mkf(rng)], [["get"], ["lr"]])
             else: evs.append("upd")
         L.append("se cg %s %s %s" % (mkf(rng), rng.choice(["T:%d" % rng.randint(-99, 99), "E3"]), " ".join(evs)))
@@ -1569,14 +1569,22 @@ def gen_C15(rng, tier):
         clk0 = rng.choice(["T:%d" % rng.randint(-10 ** 6, 10 ** 6), "T:%d" % rng.randint(-10 ** 6, 10 ** 6), "E3"])
         evs = []
         now = rng.randint(-10 ** 6, 10 ** 6)
+        cur = int(clk0[2:]) if clk0.startswith("T:") else None      # what the clock shows right now (None: it errors)
         for _ in range(rng.randint(2, 40)):
             r = rng.random()
             if r < 0.3:
                 now += rng.randint(0, 10 ** 5)
-                evs.append("clk:" + rng.choice(["T:%d" % now, "T:%d" % now, "T:%d" % now, "E2"]))
+                c = rng.choice(["T:%d" % now, "T:%d" % now, "T:%d" % now, "E2", "EN"])
+                cur = now if c.startswith("T:") else None
+                evs.append("clk:" + c)
             elif r < 0.65: evs.append("get")
-            elif r < 0.78: evs.append("sd:%d" % rng.randint(-10 ** 6, 10 ** 6))
-            elif r < 0.92: evs.append("st:%d" % rng.randint(-10 ** 6, 10 ** 6))
+            elif r < 0.78: evs.append("sd:%d" % rng.choice([rng.randint(-10 ** 6, 10 ** 6), rng.randint(-10 ** 6, 10 ** 6), 0]))
+            elif r < 0.92:
+                # set_time to a random instant, to EXACTLY what the clock shows (offset must become 0 even if it was not), to 0, to the threshold
+                cands = [rng.randint(-10 ** 6, 10 ** 6), rng.randint(-10 ** 6, 10 ** 6), 0, lo]
+                if cur is not None:
+                    cands += [cur, cur, cur + 1, cur - 1]
+                evs.append("st:%d" % rng.choice(cands))
             else: evs.append("upd")
         L.append("se gfh %d %s %s %s" % (lo, ctor, clk0, " ".join(evs)))
     for ci in CATS_F:
